@@ -331,7 +331,7 @@ class Sim:
             fb["raised"] = a[1] if a[0] == "raised" else None
         elif op in O.MUTATORS:
             self._mutate(i, hi, op, fb, inject=st.get("inject"))
-        elif op in O.FORKS or op == "reload":
+        elif op in O.FORKS or op in ("reload", "stranger"):
             self._fork(i, hi, op)
         elif op in O.DERIVES:
             self._derive(i, hi, op)
@@ -486,6 +486,24 @@ class Sim:
                 self.last_raise.append(None)
                 self.armed.append(False)
                 self.stats["fork:reload"] += 1
+                self._log(i, hi, op, "-> h%d" % (len(self.world) - 1))
+                self._check_others(i, hi, op, others)
+                return
+            if op == "stranger":
+                # a different crystal that looks alike: same group, elements,
+                # labels and name, shifted sites - anything cached under a
+                # key the two share would now be served to the wrong one
+                base = sources.build(self.source_spec, fs_dir=FS.dir("src%d" % len(self.world)))
+                uc, sg, au = rebuild_state(base)
+                au.positions = np.array(au.positions, dtype=float) + np.array([0.0137, -0.0071, 0.0093])
+                new = Crystal(uc, sg, au, titl=base.titl)
+                self.world.append(new)
+                self.titl0.append(new.titl)
+                self.repeat.append({})
+                self.last_mut.append(None)
+                self.last_raise.append(None)
+                self.armed.append(False)
+                self.stats["fork:stranger"] += 1
                 self._log(i, hi, op, "-> h%d" % (len(self.world) - 1))
                 self._check_others(i, hi, op, others)
                 return
